@@ -636,6 +636,14 @@ where
             return Err(MqttError::MalformedPacket);
         }
 
+        // A packet near the maximum size cannot take the topic name in: its Remaining Length
+        // would no longer be encodable
+        if self.remaining_length.to_u32() as u64 + topic.len() as u64
+            > VariableByteInteger::MAX as u64
+        {
+            return Err(MqttError::PacketTooLarge);
+        }
+
         // Set the topic name
         self.topic_name_buf = MqttString::new(topic)?;
 
